@@ -407,7 +407,28 @@ func genAliasRule(r *core.Result) {
 				continue
 			}
 			recv := recvObj(info, mc.unmarshal)
-			for _, a := range us.arms {
+			// A-mode: without enableunsafedecode no decoder used by Unmarshal is switched to the fast mode
+			// (DecodeString copies only in safe mode); a sub-decoder may inherit the mode of its parent
+			ast.Inspect(mc.unmarshal.Body, func(nn ast.Node) bool {
+				c, ok := nn.(*ast.CallExpr)
+				if !ok {
+					return true
+				}
+				fn := staticCallee(info, c)
+				if fn == nil || fn.Name() != "SetMode" || fn.Pkg() == nil || fn.Pkg().Path() != csp || len(c.Args) != 1 {
+					return true
+				}
+				arg := types.ExprString(c.Args[0])
+				okMode := strings.HasSuffix(arg, "DecoderModeSafe") || strings.HasSuffix(arg, ".Mode()")
+				r.GroupOb("A-mode", "safe-mode Unmarshal never switches a decoder to the fast mode", mc.name()+" :: "+types.ExprString(c), mc.pos(ex, c.Pos()), okMode,
+					"a decoder is put into "+arg+" although the code was generated without enableunsafedecode: strings decoded through it alias the input buffer")
+				return true
+			})
+			arms := append([]*arm(nil), us.arms...)
+			if us.deflt != nil {
+				arms = append(arms, &arm{num: -1, clause: us.deflt})
+			}
+			for _, a := range arms {
 				// locals holding the un-copied sub-slice
 				tainted := map[types.Object]bool{}
 				isCopy := func(e ast.Expr) bool {
@@ -529,7 +550,11 @@ func genAliasRule(r *core.Result) {
 						return true
 					})
 				}
-				r.GroupOb("A-generated", armGroup(a), armLabel(u, mc, a), mc.pos(ex, a.clause.Pos()), len(bad) == 0,
+				grp, lbl := armGroup(a), armLabel(u, mc, a)
+				if a.num == -1 {
+					grp, lbl = "default arm (unknown fields)", mc.name()
+				}
+				r.GroupOb("A-generated", grp, lbl, mc.pos(ex, a.clause.Pos()), len(bad) == 0,
 					"the sub-slice returned by DecodeBytes is stored into the message without a copy ("+strings.Join(dedupe(bad), "; ")+"): in the default safe mode the decoded bytes change when the caller reuses the input buffer")
 			}
 		}
